@@ -5,35 +5,59 @@
 (* input line and the output line at the same position, if any), end (exit  *)
 (* status and line counts).  The spec state (status, count) is carried      *)
 (* along; on a mismatch validation continues from the spec's successor.     *)
+(* The other tools (ToolText) use the same records; a line of the second    *)
+(* half of a round trip also carries the line given to the first half (src) *)
+(* and its output (fout).  Planimeter runs: vtx (one input line), pend      *)
+(* (all output lines, exit status); unc: a line of the run was of a kind    *)
+(* that the man page does not settle, the counts are then not compared.     *)
 (***************************************************************************)
 EXTENDS LineTool, TraceKit
 
-VARIABLES l, cfg
+VARIABLES l, cfg, unc
 
-Class(c, s) == IF c.tool = "GeoConvert" THEN GCLine(c, s) ELSE GSLine(c, s)
-Content(c, s, out) == IF c.tool = "GeoConvert" THEN GCContent(c, s, out) ELSE GSContent(c, s, out)
+Old(c) == c.tool \in {"GeoConvert", "GeodSolve"}
+Class(c, s) == IF c.tool = "GeoConvert" THEN GCLine(c, s) ELSE IF c.tool = "GeodSolve" THEN GSLine(c, s) ELSE TLLine(c, s)
+Content(c, s, out) == IF c.tool = "GeoConvert" THEN GCContent(c, s, out) ELSE IF c.tool = "GeodSolve" THEN GSContent(c, s, out)
+                      ELSE TLContent(c, s, out)
 
 LineOK(r, cls) ==
   /\ r.has                                                   \* an output line for this input line
   /\ cls = "bad" => IsError(r.out)
   /\ cls = "good" => ~IsError(r.out) /\ Content(cfg, r.inp, r.out)
 
-Init == l = 1 /\ KitInit /\ cfg = [tool |-> "none"] /\ LInit
+RoundTrip(c) == ~Old(c) /\ c.rt
+Counts(outs) == [i \in 1..Len(outs) |-> LET ot == WTokens(Body(cfg, outs[i])) IN
+                                         IF Len(ot) >= 1 /\ IsIntIn(ot[1], 0, 99999) THEN PolyCount(cfg, outs[i]) ELSE -1]
+NonZero(s) == SelectSeq(s, LAMBDA x : x # 0)
+
+Init == l = 1 /\ KitInit /\ cfg = [tool |-> "none"] /\ LInit /\ unc = FALSE
 Next ==
   /\ l <= NT
   /\ LET r == T[l] IN
      CASE r.e = "Reset" ->
-            /\ Require(r.tool \in {"GeoConvert", "GeodSolve"}, l, "tool-start", <<>>)
-            /\ cfg' = r /\ status' = 0 /\ nin' = 0 /\ nout' = 0
-       [] r.e = "line" /\ cfg.tool # "none" ->
+            LET ok == r.tool \in {"GeoConvert", "GeodSolve"} \/ KnownCfg(r) IN
+            /\ Require(ok, l, "tool-start", <<>>)
+            /\ cfg' = (IF ok THEN r ELSE [tool |-> "none"])
+            /\ status' = 0 /\ nin' = 0 /\ nout' = 0 /\ pcur' = 0 /\ pdone' = <<>> /\ unc' = FALSE
+       [] r.e = "line" /\ cfg.tool \notin {"none", "Planimeter"} ->
             LET cls == Class(cfg, r.inp)
                 bad == cls = "bad" \/ (cls = "any" /\ r.has /\ IsError(r.out))
             IN /\ Require(LineOK(r, cls), l, "tool-line-" \o cls, <<cls>>)
-               /\ Line(bad) /\ cfg' = cfg
-       [] r.e = "end" /\ cfg.tool # "none" ->
+               /\ RoundTrip(cfg) => /\ Require(RTInput(cfg, r.inp, r.fout), l, "tool-rt-input", <<>>)
+                                    /\ Require(RTBack(cfg, r.src, r.out), l, "tool-rt-back", <<>>)
+               /\ Line(bad) /\ UNCHANGED <<cfg, unc>>
+       [] r.e = "end" /\ cfg.tool \notin {"none", "Planimeter"} ->
             /\ Require(r.status = status /\ r.nin = nin /\ r.nout = nout /\ r.signal = 0, l, "tool-exit", <<status, nin, nout>>)
-            /\ UNCHANGED <<cfg, status, nin, nout>>
-       [] OTHER -> Require(FALSE, l, "tool-unknown", <<>>) /\ UNCHANGED <<cfg, status, nin, nout>>
+            /\ UNCHANGED <<cfg, status, nin, nout, pcur, pdone, unc>>
+       [] r.e = "vtx" /\ cfg.tool = "Planimeter" ->
+            LET k == PolyLine(cfg, r.inp) IN
+            /\ PLine(k = "bad") /\ unc' = (unc \/ k = "any") /\ cfg' = cfg
+       [] r.e = "pend" /\ cfg.tool = "Planimeter" ->
+            /\ Require(r.signal = 0 /\ r.nin = nin, l, "poly-exit", <<nin>>)
+            /\ Require(\A i \in 1..Len(r.outs) : PolyOutOK(cfg, r.outs[i]), l, "poly-line", <<>>)
+            /\ Require(unc \/ NonZero(Counts(r.outs)) = PCounts, l, "poly-count", <<PCounts>>)
+            /\ UNCHANGED <<cfg, status, nin, nout, pcur, pdone, unc>>
+       [] OTHER -> Require(FALSE, l, "tool-unknown", <<>>) /\ UNCHANGED <<cfg, status, nin, nout, pcur, pdone, unc>>
   /\ Consumed(l)
   /\ l' = l + 1
 =============================================================================
